@@ -46,9 +46,11 @@ import WacProofs.Props.C05
   distinct), `hnd` (export names of every interface pairwise distinct), `pkgWorldsFreshB p`
   (specification side: no world-level `use` / type declaration / resource function re-declares a
   name the world already imports; export names of every inline interface pairwise distinct).
-  The resolver itself *overwrites* (`IndexMap::insert`) when a world-level type is declared under
-  the name of an earlier function / interface import, which WIT rejects — outside the property's
-  quantifier.
+  What `pkgWorldsFreshB` excludes: a world-level type declared under the name of an earlier
+  function / interface import (`world w { import f: func(); enum f { a } }`).  WIT rejects it, so it
+  is outside the property's quantifier; the model `Elab.itemTypeDecl` overwrites the import there
+  (`alInsert`) while the real `item_type_decl` / `resource_decl` trip `assert!(prev.is_none())` —
+  a panic of the resolver on an invalid text, reported in notes/C05-worlds.md (a C14 matter).
   Missing for the full statement: sources that refer to other packages (`resolve_package_path`
   decodes a dependency — C08's model, `decode_tree`).
 -/
